@@ -717,6 +717,9 @@ class CompositeEnvelopeContainer:
             Other composite envelope container
         """
         assert isinstance(other, CompositeEnvelopeContainer)
+        for product_state in other.states:
+            # The absorbed product states now live in this container
+            product_state.container = self
         self.states.extend(other.states)
         self.envelopes.extend(other.envelopes)
 
